@@ -75,6 +75,8 @@ def _own_programs():
     P["o:where_cmp"] = (lambda x, y: jnp.where(x > y, x, y * 2.0), [sds((3, 1)), sds((1, 4))])
     P["o:sym_two_aranges"] = (lambda x: (jnp.arange(x.shape[1]), jnp.arange(x.shape[2])), [("B", "H", "W", 3)])
     P["o:min_sym_const111"] = (lambda x: jnp.minimum(x, np.zeros((1, 1, 1), f32)), [("B",)])
+    # explicit narrowing cast while everything else follows the double-precision policy (own to_onnx kwargs)
+    P["o:x64_narrowing_cast"] = (lambda x: jnp.sin(x.astype(jnp.float32)), [sds((2, 3), np.float64)], {"enable_double_precision": True})
     P["o:int_bcast"] = (lambda a, b: a[:, None] * b[None, :] + 1, [sds((3,), np.int32), sds((4,), np.int32)])
     return P
 
@@ -93,7 +95,7 @@ def own_names():
     return ["o:add_const11", "o:mul_npconst11", "o:add_npconst111_sin", "o:sym_add_npconst11", "o:scalar_plus_const11",
             "o:max_const11", "o:clip_consts", "o:transpose_add_transpose", "o:transpose_mul_const_relu",
             "o:sym_transpose_chain", "o:sym_broadcast_rows", "o:sym_bias", "o:sym_concat_self", "o:sym_mean_keepdims",
-            "o:reshape_add_const", "o:cast_chain", "o:where_cmp", "o:sym_two_aranges", "o:min_sym_const111", "o:int_bcast"]
+            "o:reshape_add_const", "o:cast_chain", "o:where_cmp", "o:sym_two_aranges", "o:min_sym_const111", "o:x64_narrowing_cast", "o:int_bcast"]
 
 
 # ====================================================================== annotation snapshots (IR level)
@@ -241,7 +243,7 @@ def _code_of_np(dt):
         return {"bfloat16": 16}.get(str(dt), -1)
 
 
-def _rand_input(rs, code, shape):
+def _rand_input(rs, code, shape, ints_one=False):
     dt = _np_of(code)
     if dt is None:
         return None
@@ -250,7 +252,7 @@ def _rand_input(rs, code, shape):
     if dt == np.bool_:
         r = u > 0.5
     elif dt.kind in "iu":
-        r = np.floor(u * 2)
+        r = np.ones(shape) if ints_one else np.floor(u * 2)
     elif dt.kind == "c":
         r = u + 1j * np.asarray(rs.random_sample(shape)).reshape(shape)
     else:
@@ -468,7 +470,7 @@ def _plain_symbol(s):
     return re.fullmatch(r"[A-Za-z_][A-Za-z_0-9]*", s) is not None
 
 
-def _run_target(t, binding, seed):
+def _run_target(t, binding, seed, ints_one=False):
     """-> (status, observations {name: (np dtype code, shape)}, feed shapes)"""
     import onnxruntime as ort
     rs = np.random.RandomState(seed)
@@ -487,7 +489,7 @@ def _run_target(t, binding, seed):
                 shape.append(env[d[1]])
             else:
                 shape.append(2)
-        a = _rand_input(rs, an[0], tuple(shape))
+        a = _rand_input(rs, an[0], tuple(shape), ints_one)
         if a is None:
             return "unsupported-input", None, None
         feed[name] = a
@@ -630,6 +632,11 @@ def validate_model(model_bytes, key, tier, seed):
         for bi, b in enumerate(binds):
             stats["bindings"] += 1
             status, obs, _feed = _run_target(t, b, seed * 1000 + bi)
+            if status.startswith("run-failed") and any(an and _np_of(an[0]) is not None and _np_of(an[0]).kind in "iu" for _n, an in t.inputs):
+                # integer data 0/1 may divide by zero or index out of range: once more with all-one integers
+                status1, obs1, _ = _run_target(t, b, seed * 1000 + bi, ints_one=True)
+                if status1 == "ok":
+                    status, obs = status1, obs1
             if status != "ok" and t.exposed:
                 # retry without the loop-body exposure (e.g. iteration-dependent shapes cannot be stacked)
                 t2 = _retarget_without_exposure(m, t)
@@ -697,8 +704,11 @@ def _worker(job):
             else:
                 from jax2onnx import to_onnx
                 res["key"] = ident
-                fn, spec = own_programs()[ident]
-                m = to_onnx(fn, spec, **dict(over))
+                ent = own_programs()[ident]
+                fn, spec = ent[0], ent[1]
+                kw = dict(ent[2]) if len(ent) > 2 else {}
+                kw.update(dict(over))
+                m = to_onnx(fn, spec, **kw)
         finally:
             ui.postprocess_ir_model = real
         blob = m.SerializeToString()
